@@ -21,6 +21,7 @@ RULE = (
     "itself confirms local constancy (f(x +- delta) == f(x)); the composition law grad(sum(x * w(n(x)))) == w(n(x)) holds exactly "
     "in both modes. Non-trivial = container argument, forward mode, or a non-differentiable member other than a comparison; "
     "distinct by (program kind, output kind, argument kind, operator) / (function, slot, shape)."
+    " discrete_namespace: every exported function whose NumPy result on float input is boolean or integer valued returns a plain value equal to NumPy's under both modes; constant entries selected from containers with dependent neighbours; nan_to_num as a mask."
 )
 
 
